@@ -163,6 +163,28 @@ def run_task(t):
                 st = st[:, 0]
             res['stored_after_second'] = arr(st)
         return res
+    if kind == 'validate':
+        # the common exit of the scalar entry points on an arbitrary array of values
+        fd = build(t['mesh'])
+        vals = np.array([float.fromhex(v) for v in t['values']], dtype=np.float64).reshape(-1, 1)
+        flag = {'None': None, '0': 0, '1': 1}
+        try:
+            out = fd._validate_metric(vals, raise_negative_metric=flag.get(t['raise'], t['raise']),
+                                      return_abs_metric=flag.get(t['abs'], t['abs']))
+        except ValueError:
+            return {'error': 'ValueError'}
+        out = np.asarray(out, dtype=np.float64)
+        return {'values': arr(out.reshape(-1)), 'shape': list(out.shape)}
+    if kind == 'slot_answers':
+        # _slot_answers(key, options) against a result stored through _store_slot with `stored`
+        fd = build(t['mesh'])
+        ids = fd.elements.ids
+        vals = np.zeros((len(ids), 1))
+        if t['stored'] is None:
+            fd.elemental_data.update_data(ids, {t['key']: vals}, allow_overwrite=True)
+        else:
+            fd._store_slot(ids, t['key'], vals, tuple(t['stored']), allow_overwrite=True)
+        return {'answers': bool(fd._slot_answers(t['key'], tuple(t['options'])))}
     if kind == 'brick':
         from femio.util import brick_generator
         kw = {}
